@@ -342,7 +342,7 @@ def task(t):
 
 def main():
     run = Run("C08")
-    npools = run.size(8, 120)
+    npools = run.size(40, 120)
     n = 110 if run.tier == "quick" else 170
     tasks = []
     for profile in ("verif", "release"):
